@@ -39,7 +39,7 @@ def run_q(d, text, inp=""):
     return d.run(text, inp=inp, fuel=zcheck.FUEL * 5, max=zcheck.MAXRES * 5)
 
 
-def relations(d, ptxt, etxt, e2txt, inp, bad, out, tag):
+def relations(d, ptxt, etxt, e2txt, inp, bad, out, tag, bound_e=None):
     """All C04 relations for producer text PTXT and sub-expression texts."""
     def q(t):
         return run_q(d, t, inp)
@@ -48,6 +48,16 @@ def relations(d, ptxt, etxt, e2txt, inp, bad, out, tag):
         return
     P = zcheck.eng_results_any(rp)
     mP = multiset(P)
+    if bound_e is not None:
+        # the assertion forms with a binding block: the names take their values from the sub-expression's COPY of the stack
+        ids, eb = bound_e
+        rbp = q("%s ?( | %s | %s )" % (ptxt, ids, eb))
+        rbn = q("%s !( | %s | %s )" % (ptxt, ids, eb))
+        if rbp["st"] == "done" and rbn["st"] == "done":
+            out["partition_bound"] = out.get("partition_bound", 0) + 1
+            a, b = multiset(zcheck.eng_results_any(rbp)), multiset(zcheck.eng_results_any(rbn))
+            if sorted(a + b) != mP:
+                bad.append(("partition:with-binding-block", dict(producer=ptxt, E=eb, ids=ids, input=tag, P=len(mP), pos=len(a), neg=len(b))))
     r_pos = q("%s ?( %s )" % (ptxt, etxt))
     r_neg = q("%s !( %s )" % (ptxt, etxt))
     w = dict(producer=ptxt, E=etxt, input=tag)
@@ -121,6 +131,16 @@ def job_core(payload):
             e = g.anyprog(ts, {}, rng.randint(0, 3))
             e2 = g.push(ts, {}, 1)[0]
         etxt, e2txt = zast.text(("paren", (), e)) if e[0] in ("alt", "or") else zast.text(e), zast.text(("paren", (), e2))
+        bound_e = None
+        if len(ts) >= 2 and rng.random() < 0.5:
+            nb = rng.randint(1, min(2, len(ts) - 1))
+            nms = ["Ba04", "Bb04"][:nb]
+            env = {"Sq04": "q", "St04": "s"} if bound else {}
+            env.update({nm: t for nm, t in zip(nms, ts[-nb:])})
+            eb = g.anyprog(ts[:-nb], env, rng.randint(0, 2))
+            if rng.random() < 0.6:
+                eb = ("cat", [("read", nms[0]), eb])
+            bound_e = (" ".join(nms), zast.text(("paren", (), eb)) if eb[0] in ("alt", "or") else zast.text(eb))
         if rng.random() < 0.4:
             # values with non-zero positions, of several types, at the bottom of every stack (they are part of "the surrounding stack")
             items = rng.sample(['[ 7 ]', '"s"', '5', '[ [ ] , 1 ]', '[ ]', '0x10', '[ "a" ]'], rng.randint(2, 3))
@@ -134,9 +154,9 @@ def job_core(payload):
         try:
             if bound:
                 out["bound_reads"] = out.get("bound_reads", 0) + 1
-                relations(d, 'let Sq04 := [ 1 , [ 2 ] ] ; let St04 := "ab" ; ( %s ) Sq04 St04' % ptxt, etxt, e2txt, "", bad, out, "core")
+                relations(d, 'let Sq04 := [ 1 , [ 2 ] ] ; let St04 := "ab" ; ( %s ) Sq04 St04' % ptxt, etxt, e2txt, "", bad, out, "core", bound_e)
             else:
-                relations(d, "( %s )" % ptxt, etxt, e2txt, "", bad, out, "core")
+                relations(d, "( %s )" % ptxt, etxt, e2txt, "", bad, out, "core", bound_e)
         except common.DriverCrash as ex:
             bad.append(("crash:" + getattr(ex, "key", ex.kind), dict(text=ptxt + " // " + etxt, report=ex.report[-3000:])))
         except common.DriverTimeout as ex:
@@ -261,6 +281,7 @@ def operand_pool_fixed(t):
         (q(f, "entry abbrev attribute"), "abbrev_attr"), (q(f, "abbrev"), "abbrev_unit"),
         (q("", "0 0x10 aset 2 3 aset"), "aset,aset-inside"), (q("", "0 0x10 aset 8 0x20 aset"), "aset,aset-overlapping"), (q("", "0 0x10 aset 0x20 0x30 aset"), "aset,aset-disjoint"),
         (q("", "0 0x10 aset 5"), "aset,const"), (q("", "[1, 2, 3] [2]"), "seq,seq-infix"), (q("", "\"abc\" \"c\""), "str,str-suffix"), (q("", "[1, 2] 1"), "seq,const"),
+        (q("", '"abc" "("'), "str,str-bad-regex"), (q("", '"abc" "a{2,1}"'), "str,str-bad-regex2"), (q("", '"abc" "[a"'), "str,str-bad-regex3"), (q("", '"abc" "^a.c$"'), "str,str-regex"),
         (q("", "1 \"a\""), "const,str"), (q("", "\"abc\" \"b\""), "str,str"), (q("", "[1] [1]"), "seq,seq"), (q("", "3 4"), "const,const"),
         (q(f, "entry ?TAG_subprogram dup"), "die,die"), ("", "empty stack"),
     ]
@@ -317,7 +338,7 @@ def run(chk):
         "distinct_nontrivial": tot.get("partition_both_nonempty", 0) + wt.get("held", 0),
         "rule": "one evaluation = one (producer, sub-expression) pair run through all relations, or one (?w/!w pair, operand) cell; "
                 "non-trivial = partition in which both ?(E) and !(E) yielded something, or a word pair whose positive flavour held",
-        "partitions_compared": tot.get("partition", 0), "infix_checked": tot.get("infix", 0),
+        "partitions_compared": tot.get("partition", 0), "partitions_with_binding_blocks_compared": tot.get("partition_bound", 0), "infix_checked": tot.get("infix", 0),
         "captures_checked": tot.get("capture", 0), "lets_checked": tot.get("let", 0),
         "producers_with_positioned_values_below": tot.get("positioned", 0), "producers_with_reads_of_bound_names_on_the_stack": tot.get("bound_reads", 0),
         "dwarf_files": [os.path.basename(f) for f in files],
